@@ -156,7 +156,7 @@ func Generate(g *grammar.Grammar, w Writer, opts Options) error {
 		}
 	}
 	if cache.err != nil {
-		return err
+		return cache.err
 	}
 	return nil
 }
